@@ -45,7 +45,9 @@ def cases(draw):
                 "like_dtype": draw(st.sampled_from(DT)), "like_shape": draw(st.sampled_from([None, None, [2], [1, 3], 4])),
                 "a": draw(st.integers(-3, 4)), "b": draw(st.integers(-3, 9)), "step": draw(st.sampled_from([None, 1, 2, -1, 0.5])),
                 "num": draw(st.integers(0, 6)), "endpoint": draw(st.booleans()), "k": draw(st.integers(-2, 2)),
-                "M": draw(st.sampled_from([None, 1, 3])), "float_args": draw(st.booleans()), "base": draw(st.sampled_from([10, 2, 2.5]))}
+                "M": draw(st.sampled_from([None, 1, 3])), "float_args": draw(st.booleans()), "base": draw(st.sampled_from([10, 2, 2.5])),
+                # array-like end points (sequence / 2-d) and the axis along which the samples are laid out
+                "vec": draw(st.sampled_from([None, None, "1d", "2d"])), "axis": draw(st.sampled_from([None, None, 0, -1, 1]))}
     src = draw(st.sampled_from(["pyint", "pyfloat", "pybool", "list", "nested_list", "ndarray", "ndarray", "ndarray", "tensor_leaf",
                                 "tensor_grad", "tensor_creator", "tensor_view", "tensor_const"]))
     shape = [draw(st.integers(0, 3)) for _ in range(draw(st.integers(0, 3)))]
@@ -345,6 +347,18 @@ def check_convert(mg, c):
     return None
 
 
+def _endpoints(c, a, b, kw):
+    """scalar end points, or (c["vec"]) array-like ones of one/two dimensions; axis= only when drawn"""
+    kx = dict(kw)
+    if c.get("vec") == "1d":
+        a, b = [a, a + 1, a + 2], [b, b + 2, b + 1]
+    elif c.get("vec") == "2d":
+        a, b = [[a, a + 1, a + 2], [a + 1, a + 1, a + 3]], [[b, b + 2, b + 1], [b + 3, b + 1, b + 1]]
+    if c.get("axis") is not None:
+        kx["axis"] = c["axis"]
+    return a, b, kx
+
+
 def check_creation(mg, c):
     fn = c["fn"]
     shape = tuple(c["shape"])
@@ -378,15 +392,17 @@ def check_creation(mg, c):
             want = np.arange(*args, **kw)
             got = mg.arange(*args, **kw)
         elif fn == "linspace":
-            want = np.linspace(c["a"], c["b"], c["num"], endpoint=c["endpoint"], **kw)
-            got = mg.linspace(c["a"], c["b"], c["num"], endpoint=c["endpoint"], **kw)
+            a, b, kx = _endpoints(c, c["a"], c["b"], kw)
+            want = np.linspace(a, b, c["num"], endpoint=c["endpoint"], **kx)
+            got = mg.linspace(a, b, c["num"], endpoint=c["endpoint"], **kx)
         elif fn == "logspace":
-            want = np.logspace(c["a"], c["b"] / 4.0, c["num"], endpoint=c["endpoint"], base=c["base"], **kw)
-            got = mg.logspace(c["a"], c["b"] / 4.0, c["num"], endpoint=c["endpoint"], base=c["base"], **kw)
+            a, b, kx = _endpoints(c, c["a"], c["b"] / 4.0, kw)
+            want = np.logspace(a, b, c["num"], endpoint=c["endpoint"], base=c["base"], **kx)
+            got = mg.logspace(a, b, c["num"], endpoint=c["endpoint"], base=c["base"], **kx)
         elif fn == "geomspace":
-            a, b = abs(c["a"]) + 1, abs(c["b"]) + 1
-            want = np.geomspace(a, b, c["num"], endpoint=c["endpoint"], **kw)
-            got = mg.geomspace(a, b, c["num"], endpoint=c["endpoint"], **kw)
+            a, b, kx = _endpoints(c, abs(c["a"]) + 1, abs(c["b"]) + 1, kw)
+            want = np.geomspace(a, b, c["num"], endpoint=c["endpoint"], **kx)
+            got = mg.geomspace(a, b, c["num"], endpoint=c["endpoint"], **kx)
         elif fn == "eye":
             N = abs(c["a"]) % 4
             want = np.eye(N, c["M"], c["k"], **kw)
@@ -424,6 +440,12 @@ def _numpy_only(fn, c, shape, kw, like):
     if fn == "arange":
         args = [c["a"], c["b"]] + ([c["step"]] if c["step"] is not None else [])
         return np.arange(*args, **kw)
+    if fn in ("linspace", "logspace", "geomspace") and (c.get("vec") or c.get("axis") is not None):
+        a0, b0 = {"linspace": (c["a"], c["b"]), "logspace": (c["a"], c["b"] / 4.0), "geomspace": (abs(c["a"]) + 1, abs(c["b"]) + 1)}[fn]
+        a, b, kx = _endpoints(c, a0, b0, kw)
+        if fn == "logspace":
+            kx["base"] = c["base"]
+        return getattr(np, fn)(a, b, c["num"], endpoint=c["endpoint"], **kx)
     if fn == "linspace":
         return np.linspace(c["a"], c["b"], c["num"], endpoint=c["endpoint"], **kw)
     if fn == "logspace":
